@@ -301,6 +301,7 @@ pub fn oracle_c01(ctx: &Ctx, sub: &str, idx: u64, case: &Case, obs: &Observed, o
 pub fn oracle_c02(ctx: &Ctx, sub: &str, idx: u64, case: &Case, obs: &Observed, out: &mut Outcome) {
     let rp = || replay_of(ctx, sub, idx, case);
     let rep = &obs.rep;
+    let short_src = matches!(case.mode, FillMode::IntShort | FillMode::BytesShort);
     for i in &rep.issues {
         let relevant = match i.class {
             Class::Fatal | Class::Format => true,
@@ -308,10 +309,36 @@ pub fn oracle_c02(ctx: &Ctx, sub: &str, idx: u64, case: &Case, obs: &Observed, o
             Class::Bounds | Class::Note => false,
         };
         if relevant {
-            out.violation(format!("C02|{}", i.clause), format!("frame {:?}: {}", i.frame, i.detail), rp());
+            // a source that delivers a short block although input remains (pipe style) gets a
+            // short NON-final frame: its own signature (known finding, DESIGN 6.7)
+            if short_src && i.clause == "frame.blocksize.fixed" {
+                out.violation("C02|frame.blocksize.fixed|short-read-source", format!("frame {:?}: {} (the source returned a short read mid-stream: reads {:?})", i.frame, i.detail, obs.reads), rp());
+            } else {
+                out.violation(format!("C02|{}", i.clause), format!("frame {:?}: {}", i.frame, i.detail), rp());
+            }
         }
     }
     if rep.fatal().is_some() {
+        return;
+    }
+    if short_src {
+        // the frame layout follows the reads; what can still be demanded: nothing lost, nothing
+        // longer than the block size, fixed-blocksize bit
+        let sum: usize = rep.frames.iter().map(|f| f.header.block_size).sum();
+        if sum != case.audio.frames() {
+            out.violation("C02|frame-count", format!("frames hold {sum} samples, the source delivered {}", case.audio.frames()), rp());
+        }
+        for (i, f) in rep.frames.iter().enumerate() {
+            if f.header.variable {
+                out.violation("C02|blocking-strategy", format!("frame {i} has the variable-blocksize bit set"), rp());
+            }
+            if f.header.block_size > case.block {
+                out.violation("C02|block-size", format!("frame {i} holds {} samples, block size {}", f.header.block_size, case.block), rp());
+            }
+        }
+        if rep.info.is_last != rep.meta.is_empty() {
+            out.violation("C02|streaminfo.lastflag", format!("STREAMINFO last-block flag {} with {} following blocks", rep.info.is_last, rep.meta.len()), rp());
+        }
         return;
     }
     if rep.info.is_last != rep.meta.is_empty() {
@@ -387,7 +414,8 @@ pub fn oracle_c04(ctx: &Ctx, sub: &str, idx: u64, case: &Case, obs: &Observed, o
     }
     for (i, f) in rep.frames.iter().enumerate() {
         if i + 1 < nf && (f.header.block_size as u32) < inf.min_block {
-            out.violation("C04|min-block-gt-frame", format!("min block {} > block size {} of non-final frame {i}", inf.min_block, f.header.block_size), rp());
+            let sig = if matches!(case.mode, FillMode::IntShort | FillMode::BytesShort) { "C04|min-block-gt-frame|short-read-source" } else { "C04|min-block-gt-frame" };
+            out.violation(sig, format!("min block {} > block size {} of non-final frame {i}", inf.min_block, f.header.block_size), rp());
             break;
         }
     }
